@@ -275,3 +275,9 @@ def run(ctx):
     rule_a(ctx, R, site[2])
     rule_b(ctx, R, bs, site)
     rule_c(ctx, R, bs)
+    # d: the value the divergence test looks at is the generalised degree of divergence of the statement
+    ctx.rule("C05-d", "the tested/stored value is [i≠∅]·(Σ_{e∈i} w_e − ℓ(i)·D/2 − [spanning(i)]·dod) + [i=∅]·1 with spanning(·) the conjunction of the statement "
+                      "(kernel engine; graph routines abstracted)")
+    from .kernels import gdod_clause, run_c03_flags, guarded_clause
+    guarded_clause(ctx, "C05-d", site[2].path, "generalized-dod", lambda: gdod_clause(ctx, "C05-d", site[2]))
+    run_c03_flags(ctx, "C05-d")
